@@ -758,9 +758,73 @@ def svd_case_st(draw, tier="quick", known=()):
     return case
 
 
+# ------------------------------------------------------------------------------------------------ task degen_opts
+
+def run_degen_opts(case):
+    """the documented degeneracy thresholds: eigenvalues i, j are treated as degenerate iff |e_i - e_j| < degen_atol + degen_rtol*|e|,
+    None means the default (eps**0.6 / eps**0.4), 0.0 means "no special treatment".  A pair with a tiny but non-zero gap that the
+    caller's thresholds do NOT cover must get the full perturbation-theory gradient (with its 1/gap terms) of a loss that
+    distinguishes the two eigenvectors."""
+    from xitorch.linalg import symeig
+    import xitorch
+    torch.manual_seed(0)
+    g = gen.seeded(case["seed"])
+    n, neig, gap = case["n"], case["neig"], float(case["gap"])
+    DTd = torch.float64
+    lam = torch.tensor([1.0, 1.0 + gap] + [2.0 + 0.7 * k for k in range(n - 2)], dtype=DTd)
+    if case["mode"] == "uppest":
+        lam = -lam.flip(0)
+    Q = R.rand_unitary(g, [], n, DTd).to(DTd)
+    A0 = (Q * lam) @ Q.T
+    K = torch.randn((n, n), generator=g, dtype=DTd)
+    P = (0.5 * (A0 + A0.T) + 0.5 * (K - K.T)).requires_grad_()
+    opts = {"zero": {"degen_atol": 0.0, "degen_rtol": 0.0}, "rzero": {"degen_rtol": 0.0}, "azero_rtiny": {"degen_atol": 0.0, "degen_rtol": 1e-12},
+            "tiny": {"degen_atol": 1e-13, "degen_rtol": 1e-12}}[case["opts"]]
+    labels = ["task=degen_opts", "opts=" + case["opts"], "mode=" + case["mode"], "gap=%g" % gap, "neig=%s" % ("n" if neig == n else "<n")]
+    W = torch.randn((n, n), generator=g, dtype=DTd)
+    W = 0.5 * (W + W.T)
+    cw = torch.linspace(1.0, 2.0, neig, dtype=DTd)
+    wl = torch.randn((neig,), generator=g, dtype=DTd)
+
+    def lossf(ev, X):
+        return (wl * ev).sum() + (cw * torch.einsum("ai,ab,bi->i", X, W, X)).sum()
+    Aop = xitorch.LinearOperator.m(0.5 * (P + P.T), is_hermitian=True)
+    ev, X = xt_call(symeig, Aop, neig=neig, mode=case["mode"], method="custom_exacteig", bck_options=dict(opts), _where="forward")
+    got, = xt_call(torch.autograd.grad, lossf(ev, X), (P,), _where="backward")
+    # reference: closed-form pull-back on LAPACK eigenpairs, every eigenvalue its own group (the thresholds do not cover the gap)
+    atol = opts.get("degen_atol", EPS ** 0.6)
+    rtol = opts.get("degen_rtol", EPS ** 0.4)
+    if not gap >= 4 * (atol + rtol * 1.5):
+        return discard("gap_within_threshold", labels)
+    la, Xa = torch.linalg.eigh(0.5 * (P.detach() + P.detach().T))
+    sel = torch.arange(neig) if case["mode"] == "lowest" else torch.arange(n - neig, n)
+    lr = la[sel].clone().requires_grad_()
+    Xr = Xa[:, sel].clone().requires_grad_()
+    G_lam, G_X = torch.autograd.grad(lossf(lr, Xr), (lr, Xr))
+    Abar, _ = R.eig_pullback(la, Xa, sel, torch.eye(neig, dtype=torch.bool), G_lam, G_X)
+    ref = 0.5 * (Abar + Abar.T)
+    sc = float(ref.abs().max())
+    err = float((got - ref).abs().max())
+    # the 1/gap terms amplify the LAPACK mixing error eps/gap of the two eigenvectors: relative accuracy ~ 1e3*eps/gap
+    tol = (1e-6 + 1e4 * EPS / gap) * (1 + sc)
+    if not err <= tol:
+        return violation("degen_threshold", "bck_options=%r, eigenvalue gap %g (not covered by the thresholds): gradient differs from perturbation theory by %.3e "
+                         "(|ref| = %.3e, tol %.3e) - the pair was treated as degenerate" % (opts, gap, err, sc, tol), labels)
+    return ok(labels, nontrivial=sc > 0)
+
+
+@st.composite
+def degen_opts_st(draw, tier="quick"):
+    n = draw(st.integers(3, 5))
+    return {"n": n, "neig": draw(st.sampled_from([2, n])), "mode": draw(st.sampled_from(["lowest", "uppest"])),
+            "gap": draw(st.sampled_from([2e-8, 1e-7, 3e-7])), "opts": draw(st.sampled_from(["zero", "zero", "rzero", "azero_rtiny", "tiny"])),
+            "seed": draw(st.integers(0, 2 ** 31 - 1))}
+
+
 def tasks(tier):
     known = _known_sites()
     return [
         Task("eig", strategy=eig_case_st(tier, known=known), run=run_eig, examples={"quick": 4800, "thorough": 130000}),
         Task("svd", strategy=svd_case_st(tier, known=known), run=run_svd, examples={"quick": 2400, "thorough": 65000}),
+        Task("degen_opts", strategy=degen_opts_st(tier), run=run_degen_opts, examples={"quick": 160, "thorough": 1600}),
     ]
